@@ -13,6 +13,15 @@ CLAIMED = {
          "Trusted: Coq kernel + vm_compute; the hand model Header.v (tied by sampling incl. a complete sweep of the "
          "18-bit PGN field); Python int semantics = Z. Theorems closed under the global context.",
          "DESIGN.md §5 C05"),
+ "C08": ("Coq proof of the generic dispatcher theorem + kernel-checked (vm_compute) equality of tables regenerated "
+         "from pgns.py and canboat.json on every run + correspondence of the dispatcher interpreter",
+         "C08 (tools/templates/OblC08.v, compiled per run): for every database PGN group in scope and EVERY payload, the "
+         "function the translated dispatcher reaches names the definition spec_select yields (first non-fallback "
+         "definition in database order whose match fields all equal the payload bits, else fallback, else none). "
+         "Generic parts (C08_sem, C08_code, C08_carries, C08_outside) are proved once for all tables and payloads.",
+         "Trusted: Coq kernel + vm_compute; translators tools/tr_pgns.py (fail-closed ast) and tools/tr_db.py, cross-examined "
+         "by running the real dispatchers against run_disp on the translated tables; Python >>,&,== on ints = Z ops.",
+         "DESIGN.md §5 C08"),
 }
 PENDING_REASON = "not claimed yet: model/theorems for this property are still being built (see DESIGN.md §9 build order)"
 
